@@ -26,12 +26,13 @@ def main():
         tier = sys.argv[sys.argv.index("--tier") + 1]
     if "--checks" in sys.argv:
         extra = sys.argv[sys.argv.index("--checks") + 1].split(",")
-    out = f"/tmp/seed_{pid}_out"
+    rnd = int(sys.argv[sys.argv.index("--round") + 1]) if "--round" in sys.argv else 1
+    out = f"/tmp/seed_{pid}_out" + ("" if rnd == 1 else str(rnd))
     wt = f"/tmp/seed_{pid}"
     meta = json.load(open(f"{out}/meta.json"))
     assert sh("git status --porcelain", cwd="/repo")[1].strip() == "", "/repo is dirty"
     for n, ch in enumerate(meta["changes"], 1):
-        name = f"{pid}-{n}"
+        name = f"{pid}-{n + 2 * (rnd - 1)}"
         dst = f"{ROOT}/seeded/{name}"
         os.makedirs(dst, exist_ok=True)
         patch = f"{out}/{ch['patch']}"
